@@ -146,8 +146,39 @@ def cmd_table():
     open(os.path.join(SEEDED, "README.md"), "w").write("\n".join(lines) + "\n")
 
 
+def cmd_round(rnd):
+    """Import every /tmp/wt<rnd>-Cnn/SEEDED, drop the worktree, verify and check; print only what needs attention."""
+    import glob
+    names = []
+    for wt in sorted(glob.glob(f"/tmp/wt{rnd}-C??")):
+        pid = wt[-3:]
+        if not os.path.isdir(os.path.join(wt, "SEEDED", "B")):
+            print("not ready:", wt)
+            continue
+        cmd_import(wt, pid, rnd)
+        sh(["git", "-C", "/repo", "worktree", "remove", "--force", wt])
+        for v in ("a", "b"):
+            names.append(f"{pid}-{chr(ord(v) + 2 * (rnd - 1))}")
+    import io, contextlib
+    buf = io.StringIO()
+    with contextlib.redirect_stdout(buf):
+        cmd_verify(names)
+    for line in buf.getvalue().splitlines():
+        if "NOT-CONFIRMED" in line or line.startswith("   "):
+            print(line[:300])
+    buf = io.StringIO()
+    with contextlib.redirect_stdout(buf):
+        cmd_check(names)
+    for line in buf.getvalue().splitlines():
+        if " rc 1 " not in line:
+            print("MISSED/ERR:", line[:200])
+    print("round", rnd, "processed", len(names), "changes")
+
+
 if __name__ == "__main__":
     c = sys.argv[1]
+    if c == "round":
+        cmd_round(int(sys.argv[2]))
     if c == "import":
         cmd_import(sys.argv[2], sys.argv[3], int(sys.argv[4]) if len(sys.argv) > 4 else 1)
     elif c == "verify":
